@@ -63,6 +63,71 @@ def c20(run):
     run.exhaustive = False
 
 
+# ------------------------------------------------------------------------------------ regex family
+
+REGEX_ASSUME = [
+    "MC_Regex (run in this check): the residual automaton used as oracle agrees with the denotational semantics on "
+    "every kernel term of depth <= 2 over a 2-letter alphabet and every word of length <= 4",
+    "region argument: one character per region of the end points of the AST and of every class/range the crate "
+    "reports is explored (Trace_Product checks that the AST's regions are covered); thorough tier adds full "
+    "196608-character scans for a sample of automata",
+    "cases whose heuristic residual-automaton cost exceeds the limit (a few % of the random family) are checked on "
+    "bounded words only, not exhaustively",
+]
+
+
+def _u1_regex(run):
+    full = run.tier == "thorough"
+    run.model("MC_Regex", "MC_Regex_full.cfg" if full else "MC_Regex.cfg", workers=workers(run), timeout=1500,
+              note="residual automaton = denotational Matches on all kernel terms depth<=2 x words<=4; derived "
+                   "constructors vs SMT-LIB literal definitions; exact emptiness vs bounded search")
+
+
+def _explored(r):
+    return r.get("op") in ("dgraph", "automaton")
+
+
+@check("C01")
+def c01(run):
+    run.rule = ("cases = construction programs: all of depth <= 1 over 18 atoms, a stratified sample of depth 2 "
+                "over 6 atoms, a second alphabet layout, the semantically-empty family, seeded random programs "
+                "of depth 2..5 over real code points; each built on fresh and dirty managers; exact product check "
+                "of the derivative graph with the residual automaton of the AST (all strings) + str_in_re on all "
+                "words <= 3 over 3 letters via ReManager and via the re_* wrappers; non-trivial = distinct record "
+                "whose AST has depth >= 1")
+    run.assumptions = list(REGEX_ASSUME)
+    _u1_regex(run)
+    out, info = _drive(run, "c01")
+    need = {"star": lambda r: r.get("rootop") == "star", "mk_loop": lambda r: r.get("rootop") == "mk_loop",
+            "complement": lambda r: r.get("rootop") == "complement", "inter": lambda r: r.get("rootop") == "inter",
+            "explored": _explored, "random": lambda r: r.get("fam") == "random"}
+    nt = lambda r: r.get("ast", {}).get("k") not in ("none", "eps", "all", "allchar", "rng", "chr", "str")
+    run.validate("c01_products", os.path.join(out, "c01_products.ndjson"), "Trace_Product", "Trace_Product.cfg",
+                 ["C01:", "build/"], workers=workers(run), nontrivial=nt, need=need, timeout=1500)
+    run.validate("c01_mem", os.path.join(out, "c01_mem.ndjson"), "Trace_Regex", "Trace_Regex.cfg",
+                 ["C01:", "wrappers"], workers=workers(run), nontrivial=nt, timeout=1500,
+                 need={"via_smt": lambda r: r.get("via") == "smt", "via_manager": lambda r: r.get("via") == "manager"})
+    run.extra["driver"] = info
+
+
+@check("C02")
+def c02(run):
+    run.rule = ("cases = the C01 program families, each compiled with compile or try_compile(bound = number of "
+                "derivatives); the automaton is dumped by calling next/is_final on region representatives and "
+                "explored in product with the residual automaton of the AST; structure (sorted disjoint ranges, "
+                "default iff needed), counters and accepts/str_next on sample words are checked per case; "
+                "non-trivial = distinct record whose AST has depth >= 1")
+    run.assumptions = list(REGEX_ASSUME)
+    _u1_regex(run)
+    out, info = _drive(run, "c02")
+    nt = lambda r: r.get("ast", {}).get("k") not in ("none", "eps", "all", "allchar", "rng", "chr", "str")
+    need = {"compile": lambda r: r.get("via") == "compile", "try_compile": lambda r: r.get("via") == "try_compile",
+            "explored": _explored, "fullscan": lambda r: r.get("fullscan") is True}
+    run.validate("c02_products", os.path.join(out, "c02_products.ndjson"), "Trace_Product", "Trace_Product.cfg",
+                 ["C02:", "compile"], workers=workers(run), nontrivial=nt, need=need, timeout=1500)
+    run.extra["driver"] = info
+
+
 # ------------------------------------------------------------------------------------ housekeeping
 
 def sany():
